@@ -170,7 +170,7 @@ def main():
                                                      'not claimed until its machinery is committed'})
     m = {
         'version': 1,
-        'setup_cmd': 'sh bin/setup.sh',
+        'setup_cmd': 'sh bin/setup.sh --selftest',
         'hooks': {'guard': 'BRIDGE_ENV_VERIF',
                   'enable': 'no source hooks: the harness replaces module globals of bridge_env.network_bridge.server / '
                             '.socket_interface from outside (monkey-patching in the check process)',
